@@ -51,6 +51,10 @@ var Bases = []string{
 	"javascript:alert(1)",
 	"a:b#f",
 	"a:b?q",
+	// an EMPTY opaque path directly followed by query / fragment, and an empty path list behind an authority
+	"foo:?bq",
+	"foo:#bf",
+	"foo://h?bq#bf",
 	"not a url",
 	"http://",
 	"//h/p",
